@@ -42,18 +42,33 @@ class VirtualFile(object):
         self.file_exists = False
 
     def get_coco_files(self):
+        """
+        Works out what kind of container the source file is, and returns the files it
+        holds. An interpretation that actually finds files wins: a large cassette image
+        whose bytes at the directory offsets look unused is not an empty disk, and
+        arbitrary bytes are not an empty cassette.
+        """
+        buffer = self.source_file.get_buffer()
+        disk_files = None
         try:
-            disk_file = DiskFile(buffer=self.source_file.get_buffer())
-            return disk_file.list_files(), VirtualFileType.DISK
-        except VirtualFileValidationError:
+            disk_files = DiskFile(buffer=buffer).list_files()
+        except (VirtualFileValidationError, ValueError):
             pass
+        if disk_files:
+            return disk_files, VirtualFileType.DISK
 
+        cassette_files = None
         try:
-            cassette_file = CassetteFile(buffer=self.source_file.get_buffer())
-            return cassette_file.list_files(), VirtualFileType.CASSETTE
-        except VirtualFileValidationError as error:
+            cassette_files = CassetteFile(buffer=buffer).list_files()
+        except (VirtualFileValidationError, ValueError):
             pass
+        if cassette_files:
+            return cassette_files, VirtualFileType.CASSETTE
 
+        if disk_files is not None:
+            return [], VirtualFileType.DISK
+        if cassette_files is not None and not buffer:
+            return [], VirtualFileType.CASSETTE
         return [], VirtualFileType.BINARY
 
     def open_virtual_file(self):
